@@ -1,15 +1,27 @@
-"""C09-list-length-truncated (replay).  `if_then_else` merges lists with zip(): when a block rebinds a tracked list to a list of
-another length, the merge silently keeps min(len) elements, whichever way the condition goes.  Native twin: `if c: l = [7, 8, 9]`
-gives [7, 8, 9] for c == 1.  (The model stops with UNMODELLED on such a merge; the generators keep list lengths fixed.)"""
-import os
+"""C09-list-length-truncated (replay; REPAIRED).  `if_then_else` merged lists with zip(): when a block rebinds a tracked list to a
+list of another length, the merge silently kept min(len) elements, whichever way the condition goes.  Native twin:
+`if c: l = [7, 8, 9]` gives [7, 8, 9] for c == 1.  After the repair `if_then_else` compares the two lengths first and raises
+ValueError (a refusal: rebinding to another length can not be expressed by an element-wise selection); the model raises
+`Err.value` at the same point (C09_length_mismatch_refused, C09_length_mismatch_regression).
+Exit status 0: refused both ways (repaired tree); 1: a run completed (the pinned tree: truncation)."""
+import os, sys
 os.environ.setdefault("PYSNARK_BACKEND", "nobackend")
+import pysnark.runtime as R
 from pysnark.runtime import PrivVal
 from pysnark.branching import BranchingValues, _if, _endif
 
+completed = 0
 for c in (1, 0):
     _ = BranchingValues()
     _.l = [PrivVal(1), PrivVal(2)]
-    if _if(PrivVal(c) == 1, ctx=_):
-        _.l = [PrivVal(7), PrivVal(8), PrivVal(9)]
-    _endif(ctx=_)
-    print(f"c={c}: oblivious", [x.value for x in _.l], " native", [7, 8, 9] if c else [1, 2])
+    try:
+        if _if(PrivVal(c) == 1, ctx=_):
+            _.l = [PrivVal(7), PrivVal(8), PrivVal(9)]
+        _endif(ctx=_)
+        completed += 1
+        print(f"c={c}: oblivious", [x.value for x in _.l], " native", [7, 8, 9] if c else [1, 2], " <- merged, not refused")
+    except ValueError as e:
+        print(f"c={c}: refused with ValueError({e})  native", [7, 8, 9] if c else [1, 2])
+    _.stack.clear(); R.guard = None
+R.autoprove = False
+sys.exit(1 if completed else 0)
